@@ -653,6 +653,20 @@ class Frame:
 
     def eval_comp(self, e, st: State):
         """Comprehensions: [elt for v in it (if c)] -> map(elt[v:=ELEM(it)], it)."""
+        # {p: d.pop(p) for p in names} on a literal dict whose spread entry is dict(zip(names, ...)):
+        # the spread is moved out of d (same assumption as the pop loop: names do not collide with literal keys)
+        if isinstance(e, ast.DictComp) and len(e.generators) == 1 and not e.generators[0].ifs and isinstance(e.generators[0].target, ast.Name) \
+                and isinstance(e.key, ast.Name) and e.key.id == e.generators[0].target.id and isinstance(e.value, ast.Call) \
+                and isinstance(e.value.func, ast.Attribute) and e.value.func.attr == "pop" and isinstance(e.value.func.value, ast.Name) \
+                and len(e.value.args) >= 1 and isinstance(e.value.args[0], ast.Name) and e.value.args[0].id == e.key.id:
+            dname = e.value.func.value.id
+            d = st.env.get(dname)
+            names = self.eval(e.generators[0].iter, st)
+            if d is not None and d[0] == "d":
+                spread = [v for k, v in d[1] if k == T.K("**")]
+                if len(spread) == 1 and _zipdict_keys(spread[0]) == names:
+                    st.env[dname] = ("d", tuple((k, v) for k, v in d[1] if k != T.K("**")))
+                    return spread[0]
         if len(e.generators) == 1:
             dom = self.eval(e.generators[0].iter, st)
             if _concrete_domain(dom):
